@@ -157,10 +157,12 @@ theorem injFile_ok (w : Tape.World) (src : Str) (hsrc : CleanSrc src) (st : Inj)
     · exact ⟨_, _, rfl, h⟩
     · split
       · exact ⟨_, _, rfl, h⟩
-      · obtain ⟨st', hst', hok⟩ := injWriteFile_ok fileName (dispatch fileName fileExtension extWithOption).2.2
-          (dispatch fileName fileExtension extWithOption).1 (dispatch fileName fileExtension extWithOption).2.1 data hname 4 st h
-        rw [hst']
-        exact ⟨_, _, rfl, hok⟩
+      · split
+        · exact ⟨_, _, rfl, h⟩
+        · obtain ⟨st', hst', hok⟩ := injWriteFile_ok fileName (dispatch fileName fileExtension extWithOption).2.2
+            (dispatch fileName fileExtension extWithOption).1 (dispatch fileName fileExtension extWithOption).2.1 data hname 4 st h
+          rw [hst']
+          exact ⟨_, _, rfl, hok⟩
 
 theorem injLoop_ok (w : Tape.World) : ∀ (srcs : List Str) (st : Inj), (∀ src ∈ srcs, CleanSrc src) → ImgOk st.img →
     ∃ st', injLoop w srcs st = .ok st' ∧ ImgOk st'.img := by
@@ -264,14 +266,14 @@ theorem writeFile_keeps_files {sd : Side} {bat : List Nat} {own : Nat → List N
     rw [hsj i hi hii]
     dsimp only
     rw [if_neg hii]
-    exact writeFile_preserves sd sd' bat content name ext kind flag inv.wf inv.hbat hw _
+    exact writeFile_preserves sd sd' bat content name ext kind flag inv.wf inv.hbat inv.not_free40.1 inv.not_free40.2 hw _
       (fun b hb => ⟨inv.own_not_chosen i hi hl _ b hb, hne4x b hb⟩) hlast200
   · right
     refine ⟨sd', msg, hw, hsj i hi, inv'.hbat, ?_⟩
     unfold fileOf
     rw [hsj i hi]
     -- the refused side differs from the old one only in sectors of blocks that were free
-    rw [writeFile_unfold sd bat content name ext kind flag inv.hbat] at hw
+    rw [writeFile_unfold sd bat content name ext kind flag inv.hbat inv.not_free40.1 inv.not_free40.2] at hw
     by_cases hfit : (chosen bat (reqBlocks content.length)).length < reqBlocks content.length
     · rw [if_pos hfit] at hw
       cases hw
